@@ -38,6 +38,16 @@ CHECKS = {
    text="Theorems about Gen.Data (regenerated from srlife/data on every run): thermal_positive, rupture_antitone_stress, rupture_antitone_temp, fatigue_antitone, envelope_points, ceramic_positive, pw_at_knot, pw_deriv_is_slope, xml_roundtrip, array_roundtrip, loader_total, each resting on a computable certificate closed by kernel evaluation and a soundness lemma proved once (so a harmless data edit re-proves itself and a property-breaking one fails, naming the item). Tied to srlife by evaluating the generated correlations in Lean against the real evaluators (1e-10), loading every (file, variant) through the documented loaders incl. NEML models, real save->load of every model type, and dense sweeps of the real code for positivity/monotonicity/knots/slopes.",
    note="Trusted: Lean kernel + Mathlib; gen/gen_data.py (self-checked against the real evaluators each run); spec ranges in spec/ranges.json ([1,1000] MPa, strain range <= 0.05, T > 0); repr(float) round trip as an explicit hypothesis of array_roundtrip. Open finding F26 (keys that are not XML names).",
    design="4/C20"),
+ "C19": dict(
+   technique="Lean 4 proof over any linearly ordered field (multilinear interpolation on arbitrary strictly increasing grids, theta wrap by floor, dispatch and shape predicates) + exact rational correspondence with the real boundary-condition objects",
+   text="Theorems: grid_exact (all kinds, incl. the documented theta_j = 2*pi*j/nt and z_k grids), between (convex combination of the corner data for every kind; for every theta thanks to the wrap), theta_periodic, theta_seam, theta_last_cell, out_of_range_raises_1d, scalar_single, vector_is_map (all three dispatch branches), shape_accept_iff for the five constructors, setbc_accept_iff. Tied to srlife by evaluating the model on exact rationals against 90 real BC objects per run (~4000 queries: grid points, interiors, seam, +-2*pi*k, out of range, array/mixed/numpy-scalar arguments), a malformed stream of shapes and set_bc arguments compared exactly, and the property predicate evaluated on the real objects.",
+   note="Trusted: Lean kernel + Mathlib (propext/Classical.choice/Quot.sound); scipy's RegularGridInterpolator/interp1d (modelled and compared exactly on dyadic data); one rounding in np.mod for negative angles (1e-12).",
+   design="4/C19"),
+ "C16": dict(
+   technique="Lean 4 proof (save/load of a typed HDF5 tree model for receivers of any size, by list induction; isinstance lattice of convert_to_spring) + exact token-by-token correspondence with real h5py files + downstream bit-equality",
+   text="Theorems: roundtrip (load(save r) ~ r: names in order, bit-equal values, py->np widening only), roundtrip_norm, roundtrip_order, roundtrip_options (str/float/int/np types convert to the same spring after reload), bc_dispatch (four thermal kinds + pressure), bc_dispatch_unknown, downstream_equal, roundtrip_twice. Tied to srlife by saving 120 random receivers per run with the real code (unsorted and numeric-looking names, all option types, all abstractions, all BC kinds, flow paths, result dictionaries with nan/inf/denormals), reloading, and comparing a typed canonical form and the file's group iteration order with the model; thermal, life and reliability stages are run on original vs reloaded receivers (bit-equal).",
+   note="Trusted: Lean kernel + Mathlib; h5py type coercions as tabulated in SrModel/H5.lean (checked each run); names are HDF5 link names (open finding F27: a name containing '/'); bool options are outside the documented option set.",
+   design="4/C16"),
 }
 PENDING_REASON = "check not built yet in this round (work in progress; see DESIGN.md section 4 for the planned model and theorems) — not claimed"
 
